@@ -86,11 +86,13 @@ theorem C01_label_panic_iff (start offset : Nat) :
     (labelNumber start offset).isPanic = true ↔ 2 ^ 32 ≤ start + offset := by
   rw [labelNumber, addU_isPanic]; rfl
 
-example : (labelNumber 4294967295 1).isPanic = true := by decide
+theorem C01_witness_label : labelNumber 4294967295 1 = .panic .add := by decide
 
 theorem C01_rc4_panic_iff (keyLen : Nat) : (rc4FirstIndex keyLen).isPanic = true ↔ keyLen = 0 := by
   unfold rc4FirstIndex remU
   by_cases h : keyLen = 0 <;> simp [h]
+
+theorem C01_witness_rc4 : rc4FirstIndex 0 = .panic .rem0 := by decide
 
 theorem C01_rotate_panic_iff (rotate angle : Int) :
     (rotateCompose rotate angle).isPanic = true ↔
@@ -105,7 +107,7 @@ theorem C01_rotate_panic_iff (rotate angle : Int) :
   · rw [if_neg h]
     exact ⟨fun _ => h, fun _ => rfl⟩
 
-example : (rotateCompose 2147483647 90).isPanic = true := by decide
+theorem C01_witness_rotate : rotateCompose 2147483647 90 = .panic .add := by decide
 
 /-- object_stream.rs:95 — the first offset alone decides: `first + offset` in `u32` -/
 theorem C01_objstm_first_panic_iff (first o : Int) (rest : List Int) :
@@ -114,7 +116,8 @@ theorem C01_objstm_first_panic_iff (first o : Int) (rest : List Int) :
   intro h
   rw [objStmOffsets, isPanic_bind]; left; exact h
 
-example : (objStmOffsets 4294967295 [1]).isPanic = true := by decide
+theorem C01_witness_objstm :
+    (objStm 1 4294967295 [49, 48, 32, 49, 32, 116, 114, 117, 101]).isPanic = true := by decide
 
 /-- text/cmap.rs:781 — a nine-byte code overflows the `usize` fold -/
 theorem C01_witness_cmap_offset :
@@ -209,6 +212,60 @@ theorem C01_witness_content_depth (n : Nat) : cSkipDepth (List.replicate n 59) =
   | zero => rfl
   | succ k ih => rw [List.replicate_succ, cSkipDepth]; simp [ih]
 
+/-! ## object parser (`PdfObject::parse_with_options`, objects.rs): recursion without a depth guard -/
+
+/- FULL: ∃ K, ∀ bs, (parseTop o bs).depth ≤ K  — e.g. K = MAX_RECURSION_DEPTH + c as in
+   `stack_safe.rs`.  FALSE: `parse_from_token` → `parse_array` → `parse_from_token` never consults a
+   depth counter. -/
+
+theorem nextToken_lbracket (o : LexOpts) (rest : Bytes) :
+    nextToken o (91 :: rest) = ⟨.ok .arrStart, rest, 1⟩ := by
+  conv => lhs; unfold nextToken
+  simp [isWs]
+
+theorem next_lbracket (o : LexOpts) (rest : Bytes) (ld : Nat) (ss : Bool) :
+    PS.next o ⟨91 :: rest, [], ld, ss⟩ = (.ok .arrStart, ⟨rest, [], max ld 1, ss⟩) := by
+  simp [PS.next, nextToken_lbracket]
+
+theorem next_nil (o : LexOpts) (ld : Nat) (ss : Bool) :
+    PS.next o ⟨[], [], ld, ss⟩ = (.ok .eof, ⟨[], [], max ld 1, ss⟩) := by
+  simp [PS.next, nextToken]
+
+/-- pumping lemma: after an opening `[`, `n` further `[` nest `n + 2` activations of
+`parse_from_token_with_options` (and the parse ends in an error at EOF) -/
+theorem parse_brackets (o : LexOpts) : ∀ (n fuel ld : Nat) (ss : Bool), 2 * n + 3 ≤ fuel →
+    (parseFromTok o fuel .arrStart ⟨List.replicate n 91, [], ld, ss⟩).val = .err ∧
+    (parseFromTok o fuel .arrStart ⟨List.replicate n 91, [], ld, ss⟩).depth = n + 2
+  | 0, fuel, ld, ss, h => by
+    obtain ⟨f, rfl⟩ : ∃ f, fuel = f + 3 := ⟨fuel - 3, by omega⟩
+    simp [parseFromTok, parseArr, next_nil]
+  | n + 1, fuel, ld, ss, h => by
+    obtain ⟨f, rfl⟩ : ∃ f, fuel = f + 2 := ⟨fuel - 2, by omega⟩
+    have ih := parse_brackets o n f (max ld 1) ss (by omega)
+    rw [parseFromTok]
+    simp only [List.replicate_succ]
+    rw [parseArr]
+    simp only [next_lbracket]
+    simp [ih.1, ih.2]
+
+/-- `n + 1` opening brackets reach depth `n + 2` … -/
+theorem C01_obj_depth_brackets (o : LexOpts) (n : Nat) :
+    (parseTop o (List.replicate (n + 1) 91)).depth = n + 2 := by
+  unfold parseTop
+  simp only [List.replicate_succ, List.length_cons, List.length_replicate]
+  rw [show 3 * (n + 1) + 8 = (3 * n + 10) + 1 by omega, parseObj]
+  simp only [next_lbracket]
+  exact (parse_brackets o n (3 * n + 10) _ _ (by omega)).2
+
+/-- … hence no constant bounds the recursion depth of the object parser -/
+theorem C01_witness_obj_depth_unbounded (o : LexOpts) : ¬ ∃ K, ∀ bs, (parseTop o bs).depth ≤ K := by
+  intro ⟨K, h⟩
+  have := h (List.replicate (K + 1) 91)
+  rw [C01_obj_depth_brackets] at this
+  omega
+
+example : (parseTop defaultOpts [91, 91, 49, 93, 93]).depth = 3 := by decide
+
 /-! ## classic xref section: EOF before `trailer` never leaves the loop (xref.rs:781-790) -/
 
 /-- at the end of the file the subsection loop reads an empty line, `continue`s and reads again -/
@@ -231,6 +288,10 @@ theorem C01_witness_xref_boundary :
 theorem C01_witness_xref_add :
     entryLoop 4294967295 2 [[49, 55, 32, 48, 32, 110], [49, 55, 32, 48, 32, 110]] 0 [] = .panic .add := by
   decide
+
+/-- xref stream `/Index [4294967295 2]`: `first_obj + i` in `u32` (xref_stream.rs:183) -/
+theorem C01_witness_xrs_add :
+    xrsEntries [1, 1, 1] (some [4294967295, 2]) (some 10) [1, 0, 0, 1, 0, 0] = .panic .add := by decide
 
 /-! ## `/Prev` chain: visited set ⇒ termination, one visit per section -/
 
